@@ -166,7 +166,7 @@ def handlers(prog, crate, entry="execute", enum="ExecuteMsg"):
     out = {}
     for v, e in table.items():
         hs = [t.get("rkey") for _, t in e["handler"]]
-        out[v] = {"handlers": hs, "entry": e["entry"], "switch": e["switch"], "calls": e["handler"]}
+        out[v] = {"handlers": hs, "entry": e["entry"], "switch": e["switch"], "calls": e["handler"], "variant": v, "enum": enum}
     return ctx, out
 
 
@@ -180,9 +180,13 @@ def enum_variants(prog, path):
 def arm_guarded(prog, dctx, arm, guard, depth, found):
     """is variant `arm` (dispatcher arm + handler) behind `guard`?  Guards placed in the
     dispatcher arm count for the handler they precede."""
-    # 1. in the dispatcher: cut pass edges, is the handler call still reachable?
+    # 1. in the dispatcher, in the world "the message is this variant": cut pass edges, is the handler call still reachable?
+    if arm.get("variant"):
+        en = arm.get("enum", "ExecuteMsg")
+        dctx = dctx.assume_variant(lambda t, en=en: t[0] == "param" and len(t) > 3 and en in (t[3] or ""), arm["variant"])
+        dctx.prog = prog
     edges = pass_edges(dctx, guard, prog, depth, found)
-    reach = dctx.body.reachable(dctx.removed | edges)
+    reach = dctx.with_removed(edges).settle().T.reach
     offenders = []
     for bb, t in arm["calls"]:
         if bb not in reach:
